@@ -135,6 +135,16 @@ func runCheck(repo, prop, tier string) int {
 			continue
 		}
 		nvc++
+		if fc.Opts["refines"] != "" {
+			rvc, err := w.VerifyRefinement(key)
+			if err != nil {
+				harness = append(harness, err.Error())
+			} else {
+				for _, o := range rvc.obls {
+					items = append(items, vcObl{rvc, o})
+				}
+			}
+		}
 		harness = append(harness, vc.errs...)
 		for _, n := range vc.notes {
 			notes[n] = true
